@@ -109,7 +109,7 @@ func unit(ki, mode int) harness.Unit {
 			iv := make([]byte, 16)
 			var ivCan *pu.Canary
 			if ivv != nil {
-				ivCan = pu.NewCanary(ivv, 8)
+				ivCan = pu.NewCanary(ivv, []int{0, 64, 16}[ivi]) // spare capacity behind the caller's IV slice
 				if err := sm4.SetIV(ivCan.Slice()); err != nil {
 					c.Violate("setiv-error", fmt.Sprintf("SetIV(16 bytes) failed: %v", err), nil, nil)
 					return
@@ -262,9 +262,9 @@ func reuseUnit() harness.Unit {
 
 // Prop registers C11.
 var Prop = &harness.Prop{
-	ID:    "C11",
-	Level: "exploration",
-	Rule: "full product of 3 keys x 3 IV settings (default zero, pattern, all-ones via SetIV) x every plaintext length of the tier x tail patterns (position-dependent, and last 1/2/v bytes equal to v for v in {pad byte, 1, 2, 16, pad-1}) x 4 modes x spare capacity {0,1,16,64}; ciphertext compared with crypto/cipher's mode over the independent SM4 on the PKCS#7-padded input; the STANDARD ciphertext is decrypted by the helper; inputs, key, IV and spare capacity are canary-checked. A case is distinct/non-trivial per (iv, length, tail, spare, mode).",
+	ID:          "C11",
+	Level:       "exploration",
+	Rule:        "full product of 3 keys x 3 IV settings (default zero, pattern, all-ones via SetIV) x every plaintext length of the tier x tail patterns (position-dependent, and last 1/2/v bytes equal to v for v in {pad byte, 1, 2, 16, pad-1}) x 4 modes x spare capacity {0,1,16,64}; ciphertext compared with crypto/cipher's mode over the independent SM4 on the PKCS#7-padded input; the STANDARD ciphertext is decrypted by the helper; inputs, key, IV and spare capacity are canary-checked. A case is distinct/non-trivial per (iv, length, tail, spare, mode).",
 	Assumptions: []string{"refsm4 correct (anchored on GM/T 0002 vectors); Go's crypto/cipher CBC/CFB/OFB are the standard definitions (CFB = full-block CFB-128)"},
 	Bounds: func(tier string) string {
 		if tier == "thorough" {
